@@ -68,8 +68,23 @@ def check_unfold(ctx, it, f_un, f_fo):
     top = 5 if ctx.thorough else 3
     box = list(itertools.product(range(1, top + 1), repeat=3))
     ctx.notes["C18.tensor_box"] = f"all (I,J,K) with 1 <= I,J,K <= {top} ({len(box)} shapes) x modes 0,1,2"
+    import numpy as _np
     for shp in box:
         T = sym_quat("t", shp)
+        # memory layouts: the result must not depend on how the caller's tensor is laid out in memory
+        layouts = [("C", T)]
+        if max(shp) > 1 and len(box) <= 27 or shp in ((2, 3, 2), (3, 2, 2), (2, 2, 3)):
+            layouts.append(("F", SymArr(_np.asfortranarray(_np.asarray(T, dtype=object)), "quat")))
+            layouts.append(("transposed-view", SymArr(_np.asarray(sym_quat("t", shp), dtype=object).transpose(2, 1, 0).copy()
+                                                      .transpose(2, 1, 0), "quat")))
+        for lay, TL in layouts[1:]:
+            for mode in range(3):
+                ref = ref_unfold(T, mode)
+                st, U = run_guarded(lambda: it.run(f_un, [TL, mode]))
+                ok = st == "ok" and is_symarr(U, "quat", ref.shape) and arrays_same(U, ref)
+                ctx.ob("C18.D1.unfold", f"tensor_unfold {shp} mode {mode} on a {lay}-ordered tensor", ok,
+                       "unfolding depends on the memory layout of the input (e.g. reshape(order='A'))", where=f_un.where,
+                       construct=f"tensor_unfold: mode {mode} depends on the memory layout", loc=f_un.loc())
         for mode in range(3):
             ref = ref_unfold(T, mode)
             st, U = run_guarded(lambda: it.run(f_un, [T, mode]))
@@ -260,6 +275,18 @@ def check_metrics(ctx, F, deferred):
     shapes = [(1, 1), (2, 2), (1, 3), (2, 1, 3)] + ([(2, 2, 4), (3, 3)] if ctx.thorough else [])
     ctx.notes["C18.metric_shapes"] = [list(s) for s in shapes]
     mk_it = lambda ch: new_interp(ctx, chooser=ch)[0]
+    # integer images (uint8 / uint16 pixel data): the squared difference must be formed in floating point, otherwise it wraps
+    # around (16^2 = 0 in uint8) and unequal images get an infinite PSNR
+    for shp in [(2, 2), (1, 3)]:
+        xi, ri = sym_real("x", shp), sym_real("r", shp)
+        xi.kind = ri.kind = "int"
+        it_i, d_i = new_interp(ctx, chooser=lambda interp, node, cond: False)
+        st, v = run_guarded(lambda: it_i.run(f_ps, [xi, ri]))
+        wraps = [e for e in d_i.events if e[0] == "int-arith" and e[1] in ("pow", "mul")]
+        ctx.ob("C18.D3.psnr", f"psnr {shp} on integer-typed images: squares are formed in floating point", st == "ok" and not wraps,
+               "the squared difference is computed in the integer dtype of the inputs (wrap-around: unequal images can give "
+               "mse == 0 and PSNR = inf)", where=f_ps.where, construct="psnr: integer arithmetic before conversion to float",
+               loc=(wraps[0][2] if wraps else f_ps.loc()))
     for shp in shapes:
         x, r = sym_real("x", shp), sym_real("r", shp)
         N = x.size
